@@ -321,6 +321,7 @@ SOURCE_COMMITS = [
     "02e08bb fix: Django backend accepts a bare boolean field as a filter",
     "770b0fe fix: long property paths no longer exhaust the recursion limit while parsing",
     "6bb2574 fix: an empty argument list may contain whitespace",
+    "952ce09 fix: date-time literals written with lower case 't' or 'z' are normalised",
 ]
 
 if __name__ == "__main__":
